@@ -41,8 +41,8 @@ CMP_INDEX = {
         '(index_end_offset < index_start_offset)',
         '(0 == SegmentIndexReader::file_size(self))',
     ],
-    IR + '::load_index_for_timestamp_impl': ['(timestamp <= index_reader::parse_index(::next(…)).timestamp)'],
-    IR + '::load_all_indexes_impl': ['((SegmentIndexReader::file_size(self) / 16) != Vec::len(Iterator::collect(…)))'],
+    IR + '::load_index_for_timestamp_impl': ['(timestamp <= index_reader::parse_index(::next(…)).timestamp)', '(0 == SegmentIndexReader::file_size(self))'],   # empty file = default index, otherwise scan
+    IR + '::load_all_indexes_impl': ['((SegmentIndexReader::file_size(self) / 16) != Vec::len(Iterator::collect(…)))', '(0 == SegmentIndexReader::file_size(self))'],
 }
 _STOP = 're:^\\(index_range\\.end\\.position <= phi\\{.* \\| index_range\\.start\\.position\\}\\)$'     # stop at the batch the end index points to (positions, not offsets)
 _EOF1 = 're:^\\(SegmentLogReader::file_size\\(self\\) <= \\(SegmentLogReader::read_next_batch\\(.*\\)\\.1 \\+ phi\\{.*\\}\\)\\)$'    # this batch reaches the end of the file
